@@ -655,3 +655,7 @@ mod tests {
         assert_eq!(state.delay_estimate().unwrap(), 0.75);
     }
 }
+
+#[cfg(feature = "pendulum_project_ntpd_rs_verif")]
+#[path = "/verif/hooks/statime-algo/link_noise.rs"]
+pub mod vh_link_noise;
